@@ -277,6 +277,15 @@ let dispatch (f : string) (args : sx list) : sx =
        | "xml" -> let (d', s) = Inst.i_flatxml e d in L [sx_of_node d'.d_meta; sx_of_str s]
        | _ -> failwith "render kind")
   | "doc_used", [L segs; au] -> L (SL.map sx_of_node (Inst.i_used_auto_styles (SL.map node_of_sx segs) (node_of_sx au)))
+  | "ls_load", [L es] ->
+      let elem_of_sx = function
+        | L [d; L refs] -> { LoadStyles.le_def = opt_of_sx str_of_sx d;
+                             LoadStyles.le_refs = SL.map (function L [i; L ns] -> (nat_of_int (int_of_sx i), SL.map str_of_sx ns) | _ -> failwith "ref") refs }
+        | _ -> failwith "lelem" in
+      let sx_of_elem (e : LoadStyles.lelem) =
+        L [sx_of_opt sx_of_str e.LoadStyles.le_def; L (SL.map (fun (i, ns) -> L [sx_of_nat i; L (SL.map sx_of_str ns)]) e.LoadStyles.le_refs)] in
+      L (SL.map sx_of_elem (LoadStyles.load_all (SL.map elem_of_sx es)))
+  | "ls_newname", [L names; n] -> sx_of_str (LoadStyles.new_name (SL.map str_of_sx names) (str_of_sx n))
   | _ -> failwith ("unknown function " ^ f)
 
 let () =
